@@ -237,19 +237,16 @@ pub open spec fn seq_atoms_ok(ctx: SemTypeContext, s: Seq<Atom>, kind: int) -> b
     forall|i: int| 0 <= i < s.len() ==> atom_ok(ctx, #[trigger] s[i], kind)
 }
 pub open spec fn rb(b: Rc<Bdd>) -> Bdd { *b }
-pub proof fn lemma_dnf_of_atoms(ctx: SemTypeContext, b: Rc<Bdd>, pos: Seq<Atom>, neg: Seq<Atom>, kind: int)
-    requires bdd_atoms_ok(ctx, rb(b), kind), seq_atoms_ok(ctx, pos, kind), seq_atoms_ok(ctx, neg, kind)
-    ensures forall|k: int| 0 <= k < dnf_of(rb(b), pos, neg).len() ==> clause_ok(ctx, #[trigger] dnf_of(rb(b), pos, neg)[k], kind)
+pub proof fn lemma_clause_of_atoms(ctx: SemTypeContext, b: Rc<Bdd>, pos: Seq<Atom>, neg: Seq<Atom>, kind: int, c: ClauseView)
+    requires bdd_atoms_ok(ctx, rb(b), kind), seq_atoms_ok(ctx, pos, kind), seq_atoms_ok(ctx, neg, kind), clause_of(rb(b), pos, neg, c)
+    ensures clause_ok(ctx, c, kind)
     decreases rb(b)
 {
     match rb(b) {
         Bdd::True => {
-            assert(dnf_of(rb(b), pos, neg) == seq![(pos, neg)]);
-            assert forall|k: int| 0 <= k < dnf_of(rb(b), pos, neg).len() implies clause_ok(ctx, #[trigger] dnf_of(rb(b), pos, neg)[k], kind) by {
-                assert(dnf_of(rb(b), pos, neg)[k] == (pos, neg));
-                assert(atoms_kind_ok(ctx, pos, kind)) by { assert forall|i: int| 0 <= i < pos.len() implies atom_defined(ctx, #[trigger] pos[i]) by { assert(atom_ok(ctx, pos[i], kind)); } }
-                assert(atoms_kind_ok(ctx, neg, kind)) by { assert forall|i: int| 0 <= i < neg.len() implies atom_defined(ctx, #[trigger] neg[i]) by { assert(atom_ok(ctx, neg[i], kind)); } }
-            }
+            assert(c == (pos, neg));
+            assert(atoms_kind_ok(ctx, pos, kind)) by { assert forall|i: int| 0 <= i < pos.len() implies atom_defined(ctx, #[trigger] pos[i]) by { assert(atom_ok(ctx, pos[i], kind)); } }
+            assert(atoms_kind_ok(ctx, neg, kind)) by { assert forall|i: int| 0 <= i < neg.len() implies atom_defined(ctx, #[trigger] neg[i]) by { assert(atom_ok(ctx, neg[i], kind)); } }
         }
         Bdd::False => {}
         Bdd::Node { atom, left, middle, right } => {
@@ -261,30 +258,20 @@ pub proof fn lemma_dnf_of_atoms(ctx: SemTypeContext, b: Rc<Bdd>, pos: Seq<Atom>,
             assert(seq_atoms_ok(ctx, n2, kind)) by {
                 assert forall|i: int| 0 <= i < n2.len() implies atom_ok(ctx, #[trigger] n2[i], kind) by { if i < neg.len() { assert(n2[i] == neg[i]); } else { assert(n2[i] == atom); } }
             }
-            lemma_dnf_of_atoms(ctx, middle, pos, neg, kind);
-            lemma_dnf_of_atoms(ctx, left, p2, neg, kind);
-            lemma_dnf_of_atoms(ctx, right, pos, n2, kind);
-            let dm = dnf_of(rb(middle), pos, neg);
-            let dl = dnf_of(rb(left), p2, neg);
-            let dr = dnf_of(rb(right), pos, n2);
-            assert(dnf_of(rb(b), pos, neg) == dm + dl + dr);
-            assert forall|k: int| 0 <= k < dnf_of(rb(b), pos, neg).len() implies clause_ok(ctx, #[trigger] dnf_of(rb(b), pos, neg)[k], kind) by {
-                if k < dm.len() { assert((dm + dl + dr)[k] == dm[k]); }
-                else if k < dm.len() + dl.len() { assert((dm + dl + dr)[k] == dl[k - dm.len()]); }
-                else { assert((dm + dl + dr)[k] == dr[k - dm.len() - dl.len()]); }
-            }
+            if clause_of(rb(middle), pos, neg, c) { lemma_clause_of_atoms(ctx, middle, pos, neg, kind, c); }
+            else if clause_of(rb(left), p2, neg, c) { lemma_clause_of_atoms(ctx, left, p2, neg, kind, c); }
+            else { lemma_clause_of_atoms(ctx, right, pos, n2, kind, c); }
         }
     }
 }
 // what a *_to_schema caller gets: all clauses of the diagram's DNF are well-kinded
 pub proof fn lemma_dnf_clauses_ok(ctx: SemTypeContext, b: Rc<Bdd>, kind: int, d: Seq<Conjunction>)
-    requires bdd_atoms_ok(ctx, rb(b), kind), dnf_view(d) == dnf_of(rb(b), Seq::empty(), Seq::empty())
+    requires bdd_atoms_ok(ctx, rb(b), kind),
+        forall|k: int| 0 <= k < d.len() ==> clause_of(rb(b), Seq::empty(), Seq::empty(), conj_view(#[trigger] d[k]))
     ensures forall|k: int| 0 <= k < d.len() ==> clause_ok(ctx, conj_view(#[trigger] d[k]), kind)
 {
-    lemma_dnf_of_atoms(ctx, b, Seq::empty(), Seq::empty(), kind);
     assert forall|k: int| 0 <= k < d.len() implies clause_ok(ctx, conj_view(#[trigger] d[k]), kind) by {
-        assert(dnf_view(d)[k] == conj_view(d[k]));
-        assert(dnf_view(d).len() == d.len());
+        lemma_clause_of_atoms(ctx, b, Seq::empty(), Seq::empty(), kind, conj_view(d[k]));
     }
 }
 
@@ -496,98 +483,9 @@ pub open spec fn kinds_ok(ctx: SemTypeContext, t: SemType) -> bool {
         _ => true,
     }
 }
-// no negation is needed to print the type: literal sets are "allowed" lists and every DNF clause of a
-// diagram has a positive atom. (Outside this fragment the code emits Not<..> members into a *union*,
-// which denote far too much - see known_findings.txt.)
-pub open spec fn bdd_positive(b: Bdd) -> bool {
-    forall|k: int| 0 <= k < dnf_of(b, Seq::empty(), Seq::empty()).len() ==> (#[trigger] dnf_of(b, Seq::empty(), Seq::empty())[k]).0.len() > 0
-}
-pub open spec fn positive_p(p: ProperSubtype) -> bool {
-    match p {
-        ProperSubtype::Number { allowed, values } => allowed,
-        ProperSubtype::String { allowed, values } => allowed,
-        ProperSubtype::VoidUndefined { allowed, values } => allowed,
-        ProperSubtype::TypedArray { allowed, values } => allowed,
-        ProperSubtype::Mapping(b) => bdd_positive(*b),
-        ProperSubtype::List(b) => bdd_positive(*b),
-        ProperSubtype::Map(b) => bdd_positive(*b),
-        ProperSubtype::Set(b) => bdd_positive(*b),
-        ProperSubtype::Boolean(_) => true,
-    }
-}
-pub open spec fn positive_only(t: SemType) -> bool {
-    forall|i: int| 0 <= i < t.subtype_data@.len() ==> positive_p(*#[trigger] t.subtype_data@[i])
-}
-
-// spec-level meaning of the DNF view (mirror of the proved contract of bdd_to_dnf_recursive)
-pub open spec fn clause_true(c: ClauseView, env: Env) -> bool { all_true(c.0, env) && all_false(c.1, env) }
-pub open spec fn dnfv_eval(d: Seq<ClauseView>, env: Env) -> bool { exists|k: int| 0 <= k < d.len() && clause_true(#[trigger] d[k], env) }
-proof fn lemma_dnfv_concat(a: Seq<ClauseView>, b: Seq<ClauseView>, env: Env)
-    ensures dnfv_eval(a + b, env) == (dnfv_eval(a, env) || dnfv_eval(b, env))
-{
-    if dnfv_eval(a + b, env) {
-        let k = choose|k: int| 0 <= k < (a + b).len() && clause_true(#[trigger] (a + b)[k], env);
-        if k < a.len() { assert((a + b)[k] == a[k]); } else { assert((a + b)[k] == b[k - a.len()]); assert(0 <= k - a.len() < b.len() && clause_true(b[k - a.len()], env)); }
-    }
-    if dnfv_eval(a, env) {
-        let k = choose|k: int| 0 <= k < a.len() && clause_true(#[trigger] a[k], env);
-        assert((a + b)[k] == a[k]);
-        assert(0 <= k < (a + b).len() && clause_true((a + b)[k], env));
-    }
-    if dnfv_eval(b, env) {
-        let k = choose|k: int| 0 <= k < b.len() && clause_true(#[trigger] b[k], env);
-        assert((a + b)[k + a.len()] == b[k]);
-        assert(0 <= k + a.len() < (a + b).len() && clause_true((a + b)[k + a.len()], env));
-    }
-}
-pub proof fn lemma_dnf_of_sem(b: Rc<Bdd>, pos: Seq<Atom>, neg: Seq<Atom>, env: Env)
-    ensures dnfv_eval(dnf_of(rb(b), pos, neg), env) == (all_true(pos, env) && all_false(neg, env) && eval(rb(b), env))
-    decreases rb(b)
-{
-    match rb(b) {
-        Bdd::True => {
-            let d = dnf_of(rb(b), pos, neg);
-            assert(d == seq![(pos, neg)]);
-            if all_true(pos, env) && all_false(neg, env) { assert(0 <= 0 < d.len() && clause_true(d[0], env)); }
-            if dnfv_eval(d, env) { let k = choose|k: int| 0 <= k < d.len() && clause_true(#[trigger] d[k], env); assert(d[k] == (pos, neg)); }
-        }
-        Bdd::False => {}
-        Bdd::Node { atom, left, middle, right } => {
-            lemma_dnf_of_sem(middle, pos, neg, env);
-            lemma_dnf_of_sem(left, pos.push(atom), neg, env);
-            lemma_dnf_of_sem(right, pos, neg.push(atom), env);
-            let dm = dnf_of(rb(middle), pos, neg);
-            let dl = dnf_of(rb(left), pos.push(atom), neg);
-            let dr = dnf_of(rb(right), pos, neg.push(atom));
-            assert(dnf_of(rb(b), pos, neg) == dm + dl + dr);
-            lemma_dnfv_concat(dm + dl, dr, env);
-            lemma_dnfv_concat(dm, dl, env);
-            lemma_all_true_push(pos, atom, env);
-            lemma_all_false_push(neg, atom, env);
-        }
-    }
-}
 pub open spec fn kind_tag(kind: int) -> SubTypeTag {
     if kind == 0 { SubTypeTag::Mapping } else if kind == 1 { SubTypeTag::List } else if kind == 2 { SubTypeTag::Map } else { SubTypeTag::Set }
 }
-// a diagram all of whose clauses have a positive atom only accepts values of its own kind
-pub proof fn lemma_positive_no_leak(ctx: SemTypeContext, b: Rc<Bdd>, kind: int, x: RV)
-    requires 0 <= kind <= 3, bdd_positive(rb(b)), bdd_atoms_ok(ctx, rb(b), kind), atoms_kind_pure(), eval(rb(b), env_of(ctx, x))
-    ensures rv_tag(x) == kind_tag(kind)
-{
-    let env = env_of(ctx, x);
-    let d = dnf_of(rb(b), Seq::empty(), Seq::empty());
-    lemma_dnf_of_sem(b, Seq::empty(), Seq::empty(), env);
-    lemma_dnf_of_atoms(ctx, b, Seq::empty(), Seq::empty(), kind);
-    let k = choose|k: int| 0 <= k < d.len() && clause_true(#[trigger] d[k], env);
-    assert(clause_ok(ctx, d[k], kind));
-    assert(d[k].0.len() > 0);
-    let a = d[k].0[0];
-    assert(env(a));
-    assert(atom_holds(ctx, a, x));
-    assert(atom_defined(ctx, d[k].0[0]));
-}
-
 // ---------------------------------------------------------------- invariants of convert_to_schema_no_cache
 pub open spec fn stage_a(all: u32, acc: Set<Runtype>, k: int) -> bool {
     forall|x: RV| visible(rv_tag(x)) ==> #[trigger] set_den(acc, x) == full_upto(all, k, x)
@@ -635,13 +533,6 @@ pub broadcast proof fn lemma_all_kinds_complete(k: TypedArrayKind)
     assert(s[j] == k);
 }
 
-pub broadcast proof fn lemma_positive_no_leak_b(ctx: SemTypeContext, b: Rc<Bdd>, kind: int, x: RV)
-    requires 0 <= kind <= 3, bdd_positive(*b), bdd_atoms_ok(ctx, *b, kind), atoms_kind_pure()
-    ensures #![trigger eval(*b, env_of(ctx, x)), bdd_atoms_ok(ctx, *b, kind)]
-        eval(*b, env_of(ctx, x)) ==> rv_tag(x) == kind_tag(kind)
-{
-    if eval(rb(b), env_of(ctx, x)) { lemma_positive_no_leak(ctx, b, kind, x); }
-}
 pub broadcast proof fn lemma_tpl_single_ext_b(a: StringLitOrFormat, b: StringLitOrFormat, c: Seq<char>)
     requires #[trigger] str_is_const(a, c), #[trigger] str_is_const(b, c)
     ensures a == b
